@@ -197,9 +197,9 @@ func cmdCheck(argv []string) int {
 		}
 		obls = append(obls, r.VC.obls...)
 	}
-	timeout := 10
+	timeout := 25
 	if *tier == "thorough" {
-		timeout = 30
+		timeout = 60
 	}
 	smtDir := filepath.Join(scratch, "smt")
 	os.MkdirAll(smtDir, 0o755)
